@@ -48,6 +48,7 @@ type c10Meta struct {
 	// properties are merged into the referrer: known finding KF-C10-2)
 	CrossCombo bool              `json:"crossfile_combinator"`
 	PkgOf      map[string]string `json:"pkg_of"`    // tag -> package (base name) its id maps to
+	ClashDefs  []string          `json:"clash_defs,omitempty"` // name-clash definitions of the world (KF-C10-4/5 scope)
 	OutOf      map[string]string `json:"out_of"`    // tag -> output file ("-" = stdout) its id maps to in these runs
 	RecCombo   bool              `json:"rec_combo"` // a reference cycle runs through an allOf/anyOf branch
 	// MergedRel: the target of such a ref itself contains a relative $ref (fragment or
@@ -156,6 +157,9 @@ func (p c10) Gen(t *rapid.T, env *Env) (*Case, []*Out) {
 	env.Stats.NoteFeat(w.Feat)
 	meta := c10Meta{Markers: map[string]string{}, Cycle: hasCrossFileCycle(w), Feat: w.Feat, PkgOf: map[string]string{}, OutOf: map[string]string{}, RecCombo: hasRecursiveCombinator(w)}
 	for _, f := range w.Files {
+		if f.ClashDef != "" {
+			meta.ClashDefs = append(meta.ClashDefs, f.ClashDef)
+		}
 		_, pp := expectedRouting(w, f)
 		meta.PkgOf[f.Tag] = pp[strings.LastIndex(pp, "/")+1:]
 		for _, mk := range markersOf(f) {
@@ -354,6 +358,37 @@ func (p c10) Eval(c *Case, outs []*Out) []Discrepancy {
 		files := map[string]*GoFile{}
 		for path, b := range outputs {
 			files[path] = ParseGo(b)
+		}
+		// S: no type is declared twice in one output file (the second copy of a referenced
+		// schema under the same name; does not compile)
+		for path, g := range files {
+			if g.Err != nil {
+				continue
+			}
+			var dupTypes []string
+			for _, k := range g.Dups {
+				if strings.HasPrefix(k, "type ") {
+					dupTypes = append(dupTypes, k)
+				}
+			}
+			if len(dupTypes) > 0 {
+				sort.Strings(dupTypes)
+				cls := "type-declared-twice-in-one-file"
+				allClash := true
+				for _, k := range dupTypes {
+					isClash := false
+					for _, cd := range meta.ClashDefs {
+						if k == "type "+cd {
+							isClash = true
+						}
+					}
+					allClash = allClash && isClash
+				}
+				if allClash {
+					cls += ":nameclash"
+				}
+				add("S", cls, fmt.Sprintf("output %q declares %v more than once", path, dupTypes))
+			}
 		}
 		// S: each marker is declared exactly once in the package its schema maps to
 		type carrier struct{ path, pkg, name string }
